@@ -39,7 +39,7 @@ m = dict(
     engines=engines,
     checks=checks,
     not_applicable=na,
-    notes="Contract-based deductive verification of the real code: see DESIGN.md. Exit 2 = UNDECIDED (proof no longer applies to the edited tree), never on the unchanged tree.",
+    notes="Contract-based deductive verification of the real code: see DESIGN.md. On an edited tree where the proof can no longer be re-established (restructured function, lost anchor, unsupported construct) the check falls back to the property's bounded witness generators (witness/*.rs, compiled into a scratch copy of the tree): a concrete failing input is a VIOLATION (exit 1), a complete run without contradiction prints PROOF-UNDECIDED + OK-BOUNDED and exits 0 with evidence level `exploration` (nothing claimed proved), anything else exits 2 = UNDECIDED. Exit 2 never occurs on the unchanged tree. Checks may run concurrently.",
 )
 json.dump(m, open(os.path.join(VERIF, "MANIFEST.json"), "w"), indent=1)
 print("MANIFEST.json: %d checks, %d not_applicable" % (len(checks), len(na)))
